@@ -51,7 +51,7 @@
 (* (scalar multiplication by p/q), sums of weights are integers, sampled   *)
 (* values are reduced rationals <<num, den>>; <<0, 0>> = undefined (0/0,   *)
 (* x/0: the property prescribes nothing).  Bin edges are integers (the     *)
-(* driver maps edge e to z0 + u*e).                                        *)
+(* driver maps edge e to 0.5 + e).                                        *)
 (*                                                                         *)
 (* Deviations (the code as found; the ideal design is Deviations = {}):    *)
 (*  "MulCountAttr"     NormalisedCounts.__mul__ reads self.count           *)
@@ -59,6 +59,10 @@
 (*  "AddPassesClosed"  SampledData.__add__/__sub__ pass closed=self.closed *)
 (*  "AddDropsMembers"  CorrFunc.__add__ iterates over self's members only  *)
 (*  "SwNdimChain"      PatchedSumWeights.__init__: a != b != 2             *)
+(* Hypothetical deviations (not in the code; they show that the C04 laws   *)
+(* are not vacuous and are replayed like the others):                      *)
+(*  "LsMixedTwice"        Landy-Szalay with RD counted twice, DR ignored   *)
+(*  "HistNormBeforeWidth" histogram norm taken before the width correction *)
 (***************************************************************************)
 EXTENDS Integers, Sequences, FiniteSets, TLC
 
@@ -161,14 +165,17 @@ Base(s) == MakeValue(s.level, s.nb, s.np, s.auto, s.mem, s.seed, s.closed)
 
 ---------------------------------------------------------------------------
 (* results of an operation *)
-RVal(v)      == [out |-> "val",  v |-> v,    exc |-> {}, b |-> FALSE, items |-> <<>>]
-RRej(E)      == [out |-> "rej",  v |-> Null, exc |-> E,  b |-> FALSE, items |-> <<>>]
-RBool(b)     == [out |-> "bool", v |-> Null, exc |-> {}, b |-> b,     items |-> <<>>]
-RList(l)     == [out |-> "list", v |-> Null, exc |-> {}, b |-> FALSE, items |-> l]
-ROpen(v, E)  == [out |-> "open", v |-> v,    exc |-> E,  b |-> FALSE, items |-> <<>>]
-RAlts(l)     == [out |-> "alts", v |-> l[1], exc |-> {}, b |-> FALSE, items |-> l]
-RNz(l)       == [out |-> "nz",   v |-> Null, exc |-> {}, b |-> FALSE, items |-> l]
-RInit        == [out |-> "init", v |-> Null, exc |-> {}, b |-> FALSE, items |-> <<>>]
+RBase == [out |-> "init", v |-> Null, exc |-> {}, b |-> FALSE, items |-> <<>>, args |-> <<>>]
+RVal(v)      == [RBase EXCEPT !.out = "val",  !.v = v]
+RRej(E)      == [RBase EXCEPT !.out = "rej",  !.exc = E]
+RBool(b)     == [RBase EXCEPT !.out = "bool", !.b = b]
+RList(l)     == [RBase EXCEPT !.out = "list", !.items = l]
+ROpen(v, E)  == [RBase EXCEPT !.out = "open", !.v = v, !.exc = E]
+RAlts(l)     == [RBase EXCEPT !.out = "alts", !.v = l[1], !.items = l]
+RNz(l)       == [RBase EXCEPT !.out = "nz",   !.items = l]
+RInit        == RBase
+(* the fresh operands an action creates are handed to the driver with the result *)
+WithArgs(r, args) == [r EXCEPT !.args = args]
 
 ---------------------------------------------------------------------------
 (* index / slice selections: Python semantics of x[i] and slice.indices    *)
@@ -281,11 +288,17 @@ IsContainer(a) == a.k \in {"PC", "SW", "NC", "CF", "SD", "CD"}
 AllDefined(a) == /\ \A k \in 1..Len(a.data) : IsDef(a.data[k])
                  /\ \A s \in 1..Len(a.samples) : \A k \in 1..Len(a.samples[s]) : IsDef(a.samples[s][k])
 
+(* sampled values are floats in the code: two equal rationals computed along
+   different routes need not be the same float unless they are integers *)
+ExactData(a) == /\ \A k \in 1..Len(a.data) : a.data[k][2] = 1
+                /\ \A s \in 1..Len(a.samples) : \A k \in 1..Len(a.samples[s]) : a.samples[s][k][2] = 1
+
 (* x == y : never raises; foreign operands compare unequal; same: x is y *)
 EqOfS(a, b, same) ==
     IF same THEN RBool(TRUE)
-    ELSE IF IsContainer(b) /\ a.k = b.k /\ (~AllDefined(a) \/ ~AllDefined(b))
-            /\ StructEq(a, b) THEN ROpen(Null, {})
+    ELSE IF IsContainer(b) /\ a.k = b.k /\ StructEq(a, b)
+            /\ (~AllDefined(a) \/ ~AllDefined(b) \/ ~ExactData(a) \/ ~ExactData(b))
+         THEN ROpen(Null, {})
     ELSE RBool(IsContainer(b) /\ StructEq(a, b))
 EqOf(a, b) == EqOfS(a, b, FALSE)
 
@@ -422,7 +435,8 @@ SampleOf(a) ==
     IF "rr" \in M
     THEN IF "dr" \in M
          THEN RVal(SampleWith(a, LAMBDA b, k :
-                    LS(V("dd", b, k), V("dr", b, k),
+                    LS(V("dd", b, k),
+                       V(IF "rd" \in M /\ "LsMixedTwice" \in Deviations THEN "rd" ELSE "dr", b, k),
                        V(IF "rd" \in M THEN "rd" ELSE "dr", b, k), V("rr", b, k))))
          ELSE IF "rd" \in M  \* no formula prescribed: rejection or the symmetric substitution
          THEN ROpen(SampleWith(a, LAMBDA b, k :
@@ -456,6 +470,9 @@ Dz(a, b) == a.edges[b + 1] - a.edges[b]
 NormaliseOf(a, cls) ==
     LET nb == NB(a)
         norm == IF cls = "nz" THEN RSumF([b \in 1..nb |-> RMul(RInt(Dz(a, b)), a.data[b])], nb)
+                ELSE IF "HistNormBeforeWidth" \in Deviations   \* hypothetical, see below
+                THEN RDiv(RMul(RInt(nb), RSumF([b \in 1..nb |-> RMul(RInt(Dz(a, b)), a.data[b])], nb)),
+                          RInt(a.edges[nb + 1] - a.edges[1]))
                 ELSE RSumF(a.data, nb)
         f(x, b) == IF cls = "nz" THEN RDiv(x, norm) ELSE RDiv(x, RMul(RInt(Dz(a, b)), norm))
     IN  IF ~IsDef(norm) \/ norm[1] = 0 THEN ROpen(Null, {})
@@ -538,8 +555,12 @@ Init == /\ scen \in Scenarios
         /\ hist = <<>>
         /\ res = RInit
 
+(* with Focus a history is only extended below a step that produced a container
+   (nothing new can be learnt after a bool / rejection: purity is checked at once) *)
+Extendable == ~Focus \/ hist = <<>> \/ res.out \in {"val", "alts"}
+
 Step(entry, r) ==
-    /\ Len(hist) < MaxDepth
+    /\ Len(hist) < MaxDepth /\ Extendable
     /\ entry.op \in Ops
     /\ hist' = Append(hist, entry)
     /\ res' = r
@@ -559,11 +580,12 @@ AddVar(i, var, rev) ==
     /\ Focused(i, i) /\ ws[i].k # "SW" /\ var \in VariantsFor(ws[i])
     /\ (rev => var \notin {"type", "int1", "pynone"})
     /\ Step(HEntry("AddVar", i, 0, var, NoSel, NoScalar, rev),
-            IF rev THEN AddOf(VariantOf(ws[i], var), ws[i], 1)
-            ELSE AddOf(ws[i], VariantOf(ws[i], var), 1))
+            WithArgs(IF rev THEN AddOf(VariantOf(ws[i], var), ws[i], 1)
+                     ELSE AddOf(ws[i], VariantOf(ws[i], var), 1), <<VariantOf(ws[i], var)>>))
 SubVar(i, var) ==
     /\ Focused(i, i) /\ ws[i].k \in DataLevels /\ var \in VariantsFor(ws[i])
-    /\ Step(HEntry("SubVar", i, 0, var, NoSel, NoScalar, FALSE), AddOf(ws[i], VariantOf(ws[i], var), -1))
+    /\ Step(HEntry("SubVar", i, 0, var, NoSel, NoScalar, FALSE),
+            WithArgs(AddOf(ws[i], VariantOf(ws[i], var), -1), <<VariantOf(ws[i], var)>>))
 (* left + x with left in {0, 1}; j > 0: sum([x, y]) = (0 + x) + y *)
 LeftAdd(i, left, j) ==
     /\ Focused(i, j) /\ ws[i].k \in {"PC", "NC"}
@@ -578,14 +600,15 @@ Eq(i, j) ==
     /\ Step(HEntry("Eq", i, j, "", NoSel, NoScalar, FALSE), EqOfS(ws[i], ws[j], i = j))
 EqVar(i, var) ==
     /\ Focused(i, i) /\ var \in EqVariantsFor(ws[i])
-    /\ Step(HEntry("EqVar", i, 0, var, NoSel, NoScalar, FALSE), EqOf(ws[i], VariantOf(ws[i], var)))
+    /\ Step(HEntry("EqVar", i, 0, var, NoSel, NoScalar, FALSE),
+            WithArgs(EqOf(ws[i], VariantOf(ws[i], var)), <<VariantOf(ws[i], var)>>))
 IsCompat(i, j, req) ==
     /\ Focused(i, j)
     /\ Step(HEntry("IsCompat", i, j, "", NoSel, NoScalar, req), IsCompatOf(ws[i], ws[j], req))
 IsCompatVar(i, var, req) ==
     /\ Focused(i, i) /\ var \in VariantsFor(ws[i]) \ {"int1", "pynone"}
     /\ Step(HEntry("IsCompatVar", i, 0, var, NoSel, NoScalar, req),
-            IsCompatOf(ws[i], VariantOf(ws[i], var), req))
+            WithArgs(IsCompatOf(ws[i], VariantOf(ws[i], var), req), <<VariantOf(ws[i], var)>>))
 Bins(i, sel) ==
     /\ Focused(i, i) /\ sel \in Sels(NB(ws[i]))
     /\ Step(HEntry("Bins", i, 0, "", sel, NoScalar, FALSE), BinsOf(ws[i], sel))
@@ -617,11 +640,13 @@ RedshiftCFOf(cross, s, rmem, umem) ==
     IN  IF sc.out \in {"open"} \/ sr.out \in {"open"} \/ su.out \in {"open"}
         THEN ROpen(Null, {"TypeError", "EstimatorError"})
         ELSE RedshiftCDOf(sc.v, sr.v, su.v)
-AutoMems == {{}, {"dr"}, {"dr", "rr"}, {"rr"}}
+AutoMems == {{}, {"dr"}, {"dr", "rr"}}
 RedshiftCF(i, rmem, umem) ==
     /\ Focused(i, i) /\ ws[i].k = "CF" /\ rmem \in AutoMems /\ umem \in AutoMems
     /\ Step(HEntryM("RedshiftCF", i, 0, "", NoSel, NoScalar, FALSE, rmem, umem),
-            RedshiftCFOf(ws[i], scen, rmem, umem))
+            WithArgs(RedshiftCFOf(ws[i], scen, rmem, umem),
+                     <<IF rmem = {} THEN Null ELSE AutoCF(ws[i], scen.seed + 1, rmem),
+                       IF umem = {} THEN Null ELSE AutoCF(ws[i], scen.seed + 2, umem)>>))
 (* RedshiftData.from_corrdata(ws[i], ref, unk) on data containers: j, l index ws (0 = absent)
    or a variant that must be rejected *)
 RedshiftCD(i, j, l) ==
@@ -632,12 +657,12 @@ RedshiftCD(i, j, l) ==
 RedshiftCDVar(i, var) ==
     /\ Focused(i, i) /\ ws[i].k = "CD" /\ var \in {"counts", "edges", "nbins", "npatch"}
     /\ Step(HEntry("RedshiftCDVar", i, 0, var, NoSel, NoScalar, FALSE),
-            RedshiftCDOf(ws[i], VariantOf(ws[i], var), Null))
+            WithArgs(RedshiftCDOf(ws[i], VariantOf(ws[i], var), Null), <<VariantOf(ws[i], var)>>))
 Normalise(i, cls) ==
     /\ Focused(i, i) /\ ws[i].k = "CD"
     /\ Step(HEntry("Normalise", i, 0, cls, NoSel, NoScalar, FALSE), NormaliseOf(ws[i], cls))
 Construct(cls) ==
-    /\ cls \in ShapeClasses(ws[1].k)
+    /\ hist = <<>> /\ cls \in ShapeClasses(ws[1].k)
     /\ Step(HEntry("Construct", 1, 0, cls, NoSel, NoScalar, FALSE), ConstructOf(ws[1], cls))
 
 SomeAdd       == \E i \in Idx, j \in Idx : Add(i, j)
@@ -671,7 +696,7 @@ SomeConstruct == \E cls \in {"ok", "ndim1", "ndim2", "ndim3", "ndim4", "ndimmixe
                               "nonsquare", "npatch", "edges", "nooptional", "datashape", "samplesndim",
                               "samplesbins"} : Construct(cls)
 
-Done == Len(hist) = MaxDepth
+Done == Len(hist) = MaxDepth \/ ~Extendable
 
 Next == \/ SomeAdd \/ SomeSub \/ SomeAddVar \/ SomeSubVar \/ SomeRAdd \/ SomeMul
         \/ SomeEq \/ SomeEqVar \/ SomeIsCompat \/ SomeIsCompatVar
@@ -699,7 +724,8 @@ PSelectable(a) == {sel \in Sels(NP(a)) : PatchesOf(a, sel).out = "val"}
 SampledOf(a) == IF a.k = "CF" THEN SampleOf(a) ELSE PatchSumOf(a)
 
 (* equality is reflexive and structural *)
-EqReflexive == \A a \in Containers : EqOfS(a, a, TRUE).b /\ (AllDefined(a) => EqOf(a, VariantOf(a, "copy")).b)
+EqReflexive == \A a \in Containers : EqOfS(a, a, TRUE).b
+                                    /\ (AllDefined(a) /\ ExactData(a) => EqOf(a, VariantOf(a, "copy")).b)
 EqSymmetric == \A a \in Containers : \A b \in Partners(a) : EqOf(a, b).b = EqOf(b, a).b
 EqDetectsDifference ==
     \A a \in Containers : AllDefined(a) =>
